@@ -12,6 +12,7 @@ import (
 	"sync/atomic"
 	"testing"
 	"time"
+	"verif/simrt"
 )
 
 // hangStacks keeps only the running goroutines' stacks (the CPU loop).
@@ -78,9 +79,22 @@ func TestWorker(t *testing.T) {
 	var curStart atomic.Int64
 	var curSeed atomic.Int64
 	go func() {
+		// progress samples: (time, scheduler steps) every 100 ms
+		var lastProgress int64 = -1
+		lastChange := time.Now()
 		for {
 			time.Sleep(100 * time.Millisecond)
+			if pnow := simrt.Progress.Load(); pnow != lastProgress {
+				lastProgress, lastChange = pnow, time.Now()
+			}
 			if st := curStart.Load(); st != 0 && time.Since(time.Unix(0, st)) > perRun {
+				if time.Since(lastChange) < perRun/2 {
+					// the scheduler still takes steps: a slow run (quadratic work between two scheduling
+					// points, a loaded machine), not a hang.  The run is abandoned and reported as such.
+					fmt.Fprintf(os.Stderr, "@@SLOW %d\n", curSeed.Load())
+					w.Flush()
+					os.Exit(4)
+				}
 				fmt.Fprintf(os.Stderr, "@@HANG %d\n", curSeed.Load())
 				buf := make([]byte, 1<<16)
 				n := runtime.Stack(buf, true)
